@@ -3,9 +3,11 @@ package core
 import (
 	"bytes"
 	"context"
+	"fmt"
 	"hash/crc32"
 	"io"
 	"io/ioutil"
+	"strings"
 	"time"
 
 	context2 "github.com/oneconcern/datamon/pkg/context"
@@ -57,6 +59,10 @@ func (label *Label) UploadDescriptor(ctx context.Context, bundle *Bundle) (err e
 		}
 	}(time.Now())
 
+	// the name is a single component of the key labels/{repo}/{name}/label.yaml: listings parse it back from the key
+	if label.Descriptor.Name == "" || strings.Contains(label.Descriptor.Name, "/") {
+		return fmt.Errorf("invalid label name %q: a label name cannot be empty or contain '/'", label.Descriptor.Name)
+	}
 	err = RepoExists(bundle.RepoID, bundle.contextStores)
 	if err != nil {
 		return err
